@@ -32,7 +32,7 @@ def _engine(timeout_ms):
         from pyvc.engine import Engine
         _ENGINE = Engine(timeout_ms=timeout_ms)
     _ENGINE.timeout_ms = timeout_ms
-    _ENGINE.second_opinion = timeout_ms > 10000      # thorough tier
+    _ENGINE.second_opinion = timeout_ms >= 60000      # thorough tier
     return _ENGINE
 
 
@@ -141,7 +141,7 @@ def main(argv=None):
         return r.returncode
     t0 = time.time()
     pid = a.property
-    timeout_ms = 10000 if a.tier == "quick" else 60000
+    timeout_ms = 20000 if a.tier == "quick" else 60000      # wall-clock per obligation; roomy so a busy machine does not flip verdicts
     try:
         return check_property(pid, a, seed, timeout_ms, t0)
     except SystemExit:
